@@ -6,7 +6,8 @@ from . import campaign, engine, fmt, proof
 
 LEVEL = 'proof'
 PID = 'C01'
-WEIGHTS = {'rect': 0.25, 'oct': 0.35, 'lat': 0.15, 'gp': 0.12, 'self': 0.06, 'degen': 0.04, 'ulp': 0.03}
+WEIGHTS = {'rect': 0.2, 'oct': 0.3, 'lat': 0.12, 'gp': 0.1, 'self': 0.05, 'degen': 0.04, 'ulp': 0.03, 'boxes': 0.08, 'straddle': 0.08,
+           'fan': 0.04, 'sliver': 0.04, 'near64': 0.04}
 
 
 def proof_part(rep, pid, tier):
@@ -103,6 +104,9 @@ def run(rep, tier, seed):
     proof_part(rep, PID, tier)
     npairs = 300 if tier == 'quick' else 6000
     cases = campaign.make_cases(rng, npairs, WEIGHTS)
+    # the single-precision instantiation on operands whose arithmetic is exact in binary32 as well
+    cases += campaign.make_cases(rng, 40 if tier == 'quick' else 1200,
+                                 {'fan': 0.25, 'near': 0.25, 'sliver': 0.15, 'oct': 0.15, 'boxes': 0.1, 'rect': 0.1}, prec=32, prefix='s')
     rep.log('%d cases' % len(cases))
     outs = campaign.run_campaign(rep, cases)
     cnt, fails, corr_bad = judge(rep, PID, outs)
